@@ -41,12 +41,13 @@ def main():
     ok = True
     if a.tests:
       t0 = time.time()
-      p = subprocess.run(
-          ["/venv/bin/python", "-m", "pytest", "-q", "-x", "-p", "no:cacheprovider",
-           "--timeout=900", "--continue-on-collection-errors", "-q"],
-          cwd=dst, stdout=subprocess.PIPE, stderr=subprocess.STDOUT,
-          universal_newlines=True, env=dict(os.environ, PYTHONPATH=dst))
-      print("tests:", p.stdout.strip().splitlines()[-1], "(%.0fs)" % (time.time() - t0))
+      p = subprocess.run([os.path.join(VERIF, "tools", "baseline.py"), dst],
+                         stdout=subprocess.PIPE, stderr=subprocess.STDOUT,
+                         universal_newlines=True)
+      print("tests: exit=%d %s (%.0fs)" % (p.returncode,
+            " | ".join(p.stdout.strip().splitlines()[-2:]), time.time() - t0))
+      if p.returncode:
+        print(p.stdout[-1500:])
     for pid in a.ids:
       for seed in a.seeds.split(","):
         t0 = time.time()
